@@ -21,7 +21,7 @@ WHAT TO PRODUCE
 3. The existing test-suite must still pass with your change. Run it from the worktree:
      cd {wt} && /venv/bin/python -m pytest -q -p no:cacheprovider --timeout=900 --continue-on-collection-errors -x -q 2>&1 | tail -15
    NOTE: exactly these 7 tests fail already WITHOUT any change (they are known baseline failures, ignore them; do not use -x if it stops on them): docs/examples/microwave/test_microwave.py::MicrowaveTests::test_increase_timer, ::test_no_heating_when_door_is_not_closed, tests/test_bdd.py::TestMicrowave::test_microwave_with_steps[contract], [no contract], ::test_microwave_with_steps_and_properties[contract], [no contract], tests/test_bdd.py::test_cli. Every other test (340 of them) must still pass.
-4. A demonstration: a small standalone script {wt}/_seed/demo.py (run as `cd {wt} && /venv/bin/python _seed/demo.py`) that exits with status 1 (printing what went wrong) WITH your change and exits 0 WITHOUT it (verify both with `git diff -- sismic > _seed/patch.diff; git checkout -- sismic; <run demo>; git apply _seed/patch.diff`; do NOT use `git stash`: the stash is shared with other worktrees of the same repository). The demo must check the property's observable behaviour through the public API, not internals.
+4. A demonstration: a small standalone script {wt}/_seed/demo.py (run as `cd {wt} && /venv/bin/python _seed/demo.py`) that exits with status 1 (printing what went wrong) WITH your change and exits 0 WITHOUT it (verify both with `git diff -- sismic > _seed/patch.diff; git checkout -- sismic; <run demo>; git apply _seed/patch.diff`; do NOT use `git stash`: the stash is shared with other worktrees of the same repository). The demo must check the property's observable behaviour through the public API, not internals. NOTE: a script run as `python _seed/demo.py` has `_seed/` (not the worktree root) as sys.path[0] and would import the installed copy of sismic: start demo.py with `import os, sys; sys.path.insert(0, os.path.dirname(os.path.dirname(os.path.abspath(__file__))))` and print sismic.__file__ to confirm.
 5. Save the change as a unified diff: `cd {wt} && git diff -- sismic > _seed/patch.diff` (the diff must apply with `git apply` on a clean checkout of the same commit). Leave the change applied in the worktree too.
 6. Write {wt}/_seed/meta.json: {{"property": "{pid}", "summary": "<one sentence: what the change does>", "needs": "<what specific situation is needed for it to manifest>", "files": [...], "tests_run": "<the command you ran and its pass/fail counts>"}}.
 
